@@ -383,3 +383,25 @@ pub fn simple_fixture(name: &str, deps: &[&str]) -> Item {
 pub fn simple_test(name: &str, params: &[&str]) -> Item {
     Item::Test(Tst { name: name.to_string(), params: params.iter().map(|s| s.to_string()).collect(), ..Default::default() })
 }
+
+/// Three mutually importing modules (ma -> mb -> mc -> ma) entered at two different points by two
+/// sibling conftests: the shape on which a memoised, `visited`-truncated import walk goes wrong.
+pub fn ring_ws(rng: &mut Rng) -> WsSpec {
+    let mods = ["ma", "mb", "mc"];
+    let fx = ["fa", "fb", "fc"];
+    let mut files = vec![];
+    for i in 0..3 {
+        let next = mods[(i + 1) % 3];
+        files.push(PyFile {
+            rel: format!("{}.py", mods[i]),
+            items: vec![Item::Star { module: next.to_string(), target: Some(format!("{}.py", next)) }, Item::Fixture(Fx { func: fx[i].to_string(), ..Default::default() })],
+        });
+    }
+    let entries = [("p", rng.below(3)), ("q", rng.below(3))];
+    for (d, e) in entries {
+        files.push(PyFile { rel: format!("{}/conftest.py", d), items: vec![Item::Star { module: mods[e].to_string(), target: Some(format!("{}.py", mods[e])) }] });
+        files.push(PyFile { rel: format!("{}/test_{}.py", d, d), items: vec![Item::Test(Tst { name: "test_ring".into(), params: fx.iter().map(|s| s.to_string()).collect(), ..Default::default() })] });
+    }
+    rng.shuffle(&mut files);
+    WsSpec { files, ..Default::default() }
+}
